@@ -1091,3 +1091,30 @@ Proof.
       eapply G; [|exact Hsame]. unfold max_int64. lia. }
     replace (max_int64 <? d) with false by lia. reflexivity.
 Qed.
+
+(* ------------------------------------------------------------------------------------------------ *)
+(* separators are ignored; sizes that do not start with a digit or '.' are rejected *)
+
+Lemma attime_depends_on_clean : forall now s s', attime_clean s = attime_clean s' -> attime_parse now s = attime_parse now s'.
+Proof. intros now s s' H. unfold attime_parse. rewrite H. reflexivity. Qed.
+
+Lemma remove_seps_insert : forall a sep b, is_sep sep = true -> remove_seps (a ++ sep :: b) = remove_seps (a ++ b).
+Proof.
+  intros a sep b H. unfold remove_seps. rewrite !filter_app. simpl. rewrite H. reflexivity.
+Qed.
+
+Lemma attime_separator_insert : forall now a sep b, is_sep sep = true ->
+  trim_space (a ++ sep :: b) = a ++ sep :: b -> trim_space (a ++ b) = a ++ b ->
+  attime_parse now (a ++ sep :: b) = attime_parse now (a ++ b).
+Proof.
+  intros now a sep b Hsep H1 H2. apply attime_depends_on_clean. unfold attime_clean. rewrite H1, H2.
+  apply remove_seps_insert, Hsep.
+Qed.
+
+Lemma bytesize_rejects_lemma : forall s c r, trim_space s = c :: r -> num_char c = false -> bytesize_parse s = None.
+Proof.
+  intros s c r Ht Hc. unfold bytesize_parse. rewrite Ht. simpl span. unfold num_char in Hc. rewrite Hc. reflexivity.
+Qed.
+
+Lemma bytesize_rejects_empty : forall s, trim_space s = [] -> bytesize_parse s = None.
+Proof. intros s Ht. unfold bytesize_parse. rewrite Ht. reflexivity. Qed.
